@@ -3,6 +3,7 @@ package props
 import (
 	"bytes"
 	"fmt"
+	"github.com/tyler-sommer/stick/twig/filter"
 	"math"
 	"math/big"
 	"math/rand"
@@ -27,6 +28,8 @@ type c16 struct {
 	neighbour   map[string]gen.Named
 	nRand       int
 }
+
+var c16TwigFilters = filter.TwigFilters()
 
 func init() { fw.Register("C16", func() fw.Property { return &c16{} }) }
 
@@ -776,6 +779,16 @@ func (p *c16) runIter(res *fw.Result, z gen.Named) {
 		ln, lerr := stick.Len(z.V)
 		if (lerr == nil) != (err == nil) || (err == nil && ln != len(evs)) {
 			res.Fail("len", key, fmt.Sprintf("Len(%s) = (%d, %v) but the traversal made %d callbacks (error %v)", z.Label, ln, lerr, len(evs), err), nil)
+		}
+		// the template-level length (the Twig environment's filter) is the number of elements the loop visits
+		if err == nil && z.V != nil {
+			if lf, ok := c16TwigFilters["length"]; ok {
+				got := lf(nil, z.V)
+				res.Evals++
+				if stick.CoerceNumber(got) != float64(len(evs)) {
+					res.Fail("len", key+":filter", fmt.Sprintf("%s|length = %v but the traversal visits %d elements", z.Label, got, len(evs)), nil)
+				}
+			}
 		}
 		if it := stick.IsIterable(z.V); it != (err == nil) {
 			res.Fail("isiterable", key, fmt.Sprintf("IsIterable(%s) = %v but Iterate error = %v", z.Label, it, err), nil)
